@@ -301,7 +301,7 @@ def optionRound (o : Oracle) : List String → Toks → Opts → Except ParseErr
     else optionRound o kws input opts
 
 def parseOptions (o : Oracle) : Nat → Nat → Toks → Opts → Except ParseErr (Opts × Toks)
-  | 0, _, input, opts => .ok (opts, input)
+  | 0, _, _, _ => .error (.syn "fuel")
   | _, 0, input, opts => .ok (opts, input)
   | fuel + 1, rounds + 1, input, opts =>
     if Tables.optionRounds.isNone && (optionKw input).isNone then .ok (opts, input) else
